@@ -340,3 +340,60 @@ def v3(ctx):
 def v4(ctx):
     from .c09 import commit_guard_obligations
     return commit_guard_obligations(ctx)
+
+
+MEMOISERS = ("lru_cache", "cache", "cached", "memoize", "memoized")
+
+
+@rule("C14", "V5", floor=2, kind="S",
+      desc="every File object parses its own bytes into its own object tree: the parse result kept in "
+           "ICalendarFile._calendar / VCardFile._addressbook does not come from a memoising function (a shared "
+           "parse tree is edited by expansion / normalisation of one request and then stored by another)")
+def v5(ctx):
+    obs = []
+    for cq, prop, attr in (("xandikos.icalendar.ICalendarFile", "calendar", "self._calendar"),
+                           ("xandikos.vcard.VCardFile", "addressbook", "self._addressbook")):
+        f = ctx.own_method(cq, prop)
+        cfg = ctx.cfg(f)
+        du = DefUse(cfg)
+        stores = [n for n in cfg.stmt_nodes() if n.kind == "stmt" and isinstance(n.ast, (ast.Assign, ast.AnnAssign)) and n.ast.value is not None
+                  and any(dotted(t) == attr for t in (n.ast.targets if isinstance(n.ast, ast.Assign) else [n.ast.target]))
+                  and not (isinstance(n.ast.value, ast.Constant) and n.ast.value.value is None)]
+        if not stores:
+            raise AnalysisError("%s.%s: assignment of %s not found" % (cq, prop, attr))
+        for n in stores:
+            memo = []
+            seen = set()
+            todo = [(f, n, n.ast.value)]
+            while todo:
+                g, nd, e = todo.pop()
+                dug = du if g is f else DefUse(ctx.cfg(g))
+                for o in origins(dug, nd, e):
+                    v = o.leaf
+                    if o.kind != "expr" or not isinstance(v, ast.Call):
+                        continue
+                    res = ctx.P.resolve_call(g, v)
+                    for t in res.targets:
+                        if t.qualname in seen:
+                            continue
+                        seen.add(t.qualname)
+                        if any(d.split(".")[-1] in MEMOISERS for d in t.decorators):
+                            memo.append(t.short)
+                        # what a helper returns
+                        cfgt = ctx.cfg(t)
+                        for r in [x for x in cfgt.nodes if x.kind == "return" and x.ast.value is not None]:
+                            todo.append((t, r, r.ast.value))
+            obs.append(ctx.ob(not memo, f.qualname, where(f, n), "%s holds a private parse result" % attr,
+                              "parsed from the object's own content, no memoising function on the way",
+                              "%s is filled from the memoising function %s: File objects with equal bytes share one mutable parse tree, so what one request "
+                              "does to it (e.g. expanding recurrences strips RRULE) is what a later upload of the same bytes stores" % (attr, ", ".join(memo))))
+    return obs
+
+
+@rule("C14", "V6", floor=3, kind="S",
+      desc="what is stored is the complete normalised form: the vdir member is written to a temporary file that is "
+           "closed before it is renamed (same obligations as C04/A1) - a rename inside the `with` publishes an empty or "
+           "truncated member")
+def v6(ctx):
+    from .c04 import a1
+    return a1(ctx)
